@@ -68,13 +68,17 @@ def _build_probes():
     extra['internal/bytecode'] = {'zz_verif_c14_export.go': os.path.join(C.HARNESS, 'c14', 'bytecode_export', 'zz_verif_c14_export.go')}
     bt, err = C.overlay_build('c14-text', 'internal/patch',
                               {'zz_verif_c14_test.go': os.path.join(C.HARNESS, 'c14', 'patch_probe_test.go'),
-                               'zz_verif_c14_targets_test.go': tg}, extra)
+                               'zz_verif_c14_targets_test.go': tg,
+                               'zz_verif_c14_asm_decl.go': os.path.join(C.HARNESS, 'c14', 'c14asm', 'decl.go'),
+                               'zz_verif_c14_asm_amd64.s': os.path.join(C.HARNESS, 'c14', 'c14asm', 'short_amd64.s')}, extra)
     if bt is None:
         raise C.Infra('probe c14-text does not build against the current tree:\n' + err[-3000:])
     return {'mem': b, 'text': bt}
 
 
 N_T, N_B, N_P = 40, 4, 12
+IDLE_PKGS = ('compress/', 'vendor/golang.org/x/text/', 'vendor/golang.org/x/crypto/', 'crypto/internal/edwards25519', 'crypto/elliptic',
+             'encoding/asn1', 'encoding/pem', 'math/big.nat', 'crypto/x509', 'text/tabwriter', 'container/')
 PKG = 'github.com/tencent/goom/internal/patch.'
 
 
@@ -205,7 +209,7 @@ def gen_scratch(tier, rng):
         for off, n in ((4090, 13), (4083, 13), (4084, 13), (100, 13), (4096, 13), (4090, 0), (4095, 1), (4095, 2), (0, 8192)):
             add(off, n, perms)
     # random, structured: mostly short writes near page ends, some long
-    nr = 1500 if not thorough else 40000
+    nr = 1500 if not thorough else 20000
     for _ in range(nr):
         k = 2 + rng.below(7)
         perms = [('x' if rng.below(10) else rng.choice(['w', 'r', 'd'])) for _ in range(k)]
@@ -388,6 +392,20 @@ def gen_text_ops(fs, tier, rng):
         ops.append(f"c14.gen {n} name={f['name']} inject=1")
         if n <= 16 or n % 8 == 0 or tier == 'thorough':
             ops.append(inst(f, size=n, inject=True))
+    # hand-assembled functions whose scan stops early (1, 5, 13, 14 bytes), patched by address
+    for f in fs:
+        if 'zzC14Asm' in f['name'] and f['name'].endswith('.abi0'):
+            ops.append(inst(f, extra=' ptr=1'))
+    # any function of the binary as a prospective target, patched by address: packages nothing in the probe calls
+    # (while patched nobody may run them), Go-ABI functions only
+    idle = [f for f in fs if f['name'].startswith(IDLE_PKGS) and not f['name'].endswith('.abi0') and f['cls'] == 'nil' and f['dist'] >= 13
+            and not f['first'].startswith('90')]     # a leading NOP is goom's already-patched sentinel (C13's business)
+    pick = idle if tier == 'thorough' else [idle[rng.below(len(idle))] for _ in range(min(150, len(idle)))]
+    seen = set()
+    for f in pick:
+        if f['name'] not in seen:
+            seen.add(f['name'])
+            ops.append(inst(f, extra=' ptr=1'))
     # the placeholder lane (oracle only): every placeholder once (all origins in thorough)
     for j, p in enumerate(phs):
         for b in (bigs if tier == 'thorough' else [bigs[j % len(bigs)]]):
@@ -640,11 +658,25 @@ def run(tier):
 
 def replay(body):
     ops = body.get('ops', [])
-    impl, model, raw, calls, base, _ = execute(ops, tag='c14-replay')
     rc = 0
-    for i, op in enumerate(ops):
-        why = oracle_write(op, raw[i], calls[i], base) if op.startswith('c14.write') else None
-        print(f'{op[:200]}\n  impl : {impl[i]}\n  model: {model[i] if model else None}\n  oracle: {why or "ok"}')
-        if why or (model and impl[i] != model[i]):
-            rc = 1
+    scratch = [o for o in ops if o.startswith('c14.write') or o.startswith('c14.ps')]
+    text = [o for o in ops if o not in scratch]
+    if scratch:
+        impl, model, raw, calls, base, _ = execute(scratch, tag='c14-replay')
+        for i, op in enumerate(scratch):
+            why = oracle_write(op, raw[i], calls[i], base) if op.startswith('c14.write') else None
+            print(f'{op[:200]}\n  impl : {impl[i]}\n  model: {model[i] if model else None}\n  oracle: {why or "ok"}')
+            if why or (model and impl[i] != model[i]):
+                rc = 1
+    if text:
+        bins = build_probes()
+        head, fs = run_text_survey(bins)      # fills goom's GetFuncSize cache exactly as in a full run
+        impl, model, raw, ph, _ = execute_text(text, bins, tag='c14-replay.text')
+        for i, op in enumerate(text):
+            why = oracle_text(op, raw[i], ph[i] or [[], [], []]) if op.split()[0] in ('c14.install', 'c14.tramp') else None
+            if op.startswith('c14.gen') and raw[i] and int(op.split()[1]) < 13 and raw[i].startswith('ok'):
+                why = 'genJumpData accepts a function too short to hold the 13-byte jump'
+            print(f'{op[:200]}\n  impl : {impl[i]}\n  raw  : {raw[i]}\n  model: {model[i] if model else None}\n  oracle: {why or "ok"}')
+            if why or (model and impl[i] != model[i]):
+                rc = 1
     return rc
